@@ -21,7 +21,7 @@ CLAUSES = {
     "literal": (("C05",), "returned labels have the literal's exact value AND type"),
     "ast": (("C02", "C05"), "parse_source builds the AST the reference parser builds (values and types)"),
     "bucket": (("C12", "C03", "C10", "C15", "C09"), "the group inside the selected return statement is the one the published scheme gives"),
-    "irrelevance": (("C09",), "extra keyword arguments and argument order do not change the outcome"),
+    "irrelevance": (("C09", "C15"), "extra keyword arguments and argument order do not change the outcome"),
     "module": (("C14",), "generate_code text (both layouts) behaves like the evaluator"),
     "inert": (("C13",), "nothing but the evaluation skeleton runs (sentinel builtin never invoked)"),
     "rebuild": (("C01", "C07", "C11", "C02", "C08"), "a second evaluator built from the same text (after other compilations in the same process) behaves identically"),
